@@ -48,6 +48,11 @@ OBLIGATIONS = [
 OBLIGATIONS.append(Ob(name='C09.O4.partition_helper', harness='C09/partition.c', entry='h_partition', defines=D, mode='legacy', replace=('cds_lfht_get_count_order_ulong',), unwind=18, min_covers=5, checks=('--bounds-check', '--signed-overflow-check', '--div-by-zero-check'), timeout=600,
     functions=('partition_resize_helper',),
     desc='partition_resize_helper for every len = 2^k (k <= 40), every CPU mask, work-array allocation failure and pthread_create failing at ANY worker: the ranges given to the workers plus the caller\'s fallback cover [0,len) consecutively - every bucket index exactly once; workers joined, signals blocked during creation, mask restored, work array freed once'))
+for e, fn, rep, pre in (('h_populate', 'init_table_populate_partition', ('_cds_lfht_add',), ('init_table_populate_partition.0:2',)), ('h_remove', 'remove_table_partition', ('_cds_lfht_gc_bucket',), ('remove_table_partition.0:2',))):
+    OBLIGATIONS.append(Ob(name='C09.O5.' + fn, harness='C09/populate.c', entry=e, defines=D, mode='legacy', loop_contracts=True, need_loop_assertions=2, rules=('lfht_partition',), replace=rep, pre_unwindset=pre, unwind=2,
+        min_covers=2, checks=('--bounds-check', '--signed-overflow-check', '--div-by-zero-check'), timeout=300, functions=(fn,),
+        assumptions=('_cds_lfht_add (bucket mode) / _cds_lfht_gc_bucket are used through contracts whose preconditions are the call shapes; their bodies are the subject of C08.O5.add_bucket and C07.O2.gc_bucket',),
+        desc=fn + ' (loop invariant: any order, start, len): each bucket index of the share exactly once, in order, with the documented call shape (old size / parent bucket, reverse hash set first, REMOVED before unlink), inside one read-side critical section'))
 META = {
     'level': 'proof',
     'trusted_base': ['CBMC 6.11 (dfcc contract instrumentation, SAT back end)', 'fls_u64: bsr inline asm replaced by an assumed instruction contract',
